@@ -115,6 +115,10 @@ def run_history(hist, start="warm"):
                 loop.create_task(sub_sender.send(r))
                 loop.settle()
                 subs[op] = reg.get_or_create(_Report, r.get_channel_name()).new_receiver()
+            # a second, unrelated component group subscribes to reports afterwards (its reports are not looked at)
+            other = ReportRequest(source_id="other-group", component_ids=frozenset({2}), priority=1, set_operating_point=False)
+            loop.create_task(sub_sender.send(other))
+            loop.settle()
             ps = pch.new_sender()
             rs = rsch.new_sender()
             bs = BOUNDS_CH[IDS].new_sender()
@@ -273,6 +277,7 @@ def run(tier: str, seed: int, workers: int):
         "regular and an operating-point proposal and at least one bounds/result/expiry event",
         "assumptions": [
             "system inclusion bounds contain 0 W (lower <= 0 <= upper), as C03 states the domain of system bounds and as every pool produces them",
+            "a second component group has subscribed to reports after the first one (nothing else happens in it)",
             "the two report subscribers use different priorities (the report channel name does not include the group)",
             "sent-only: the oracle constrains requests that are sent; the last request of an event is compared with the targets in the "
             "latest reports at the quiescent point that ends the event (a target not yet reported counts as 0)",
